@@ -82,8 +82,13 @@ TOpened ==
   /\ SlotHashesOK(Ev)
   /\ level' = Ev.level /\ split' = Ev.split /\ nkeys' = Ev.nkeys
   /\ main' = ObsMain(Ev) /\ ovf' = ObsOvf(Ev) /\ free' = Ev.free
-  /\ UNCHANGED <<h, live, nops>>
-  /\ WellFormed' /\ nkeys' = Cardinality({k \in TraceKeys : live[k] # 0}) /\ (\A k \in TraceKeys : (Get(k) # 0)' <=> live[k] # 0)
+  /\ UNCHANGED <<h, nops>>
+  /\ WellFormed'
+  /\ IF Ev.after = "tear"
+     THEN \* a simulated unclean shutdown may have cut records away: the key set is re-based on the index found
+          live' = [k \in TraceKeys |-> IF (Get(k) # 0)' THEN 1 ELSE 0]
+     ELSE UNCHANGED live /\ (\A k \in TraceKeys : (Get(k) # 0)' <=> live[k] # 0)
+  /\ nkeys' = Cardinality({k \in TraceKeys : live'[k] # 0})
 
 TPut == /\ Is("idx") /\ Ev.after = "put" /\ Step
         /\ Put(Ev.k)
